@@ -22,8 +22,11 @@
 // attributable leak accounting for everything libjwt and jansson allocate).
 extern "C" __attribute__((used, visibility("default"))) const char *__asan_default_options()
 {
+	// fast_unwind_on_malloc=0: allocation stacks are unwound through the uninstrumented crypto
+	// libraries too, so that a LeakSanitizer report names the libjwt call site (measured: no
+	// noticeable cost for these workloads).
 	return "exitcode=77:detect_leaks=1:leak_check_at_exit=0:abort_on_error=0:allocator_may_return_null=1:"
-	       "detect_stack_use_after_return=0:handle_abort=1";
+	       "detect_stack_use_after_return=0:handle_abort=1:fast_unwind_on_malloc=0";
 }
 extern "C" __attribute__((used, visibility("default"))) const char *__ubsan_default_options()
 {
